@@ -244,7 +244,9 @@ def sigma_classes(fname, sp, rng):
 
 def run(ctx):
     ctx.note('rule', 'one case = (functional recipe, space, sigma class, input value class); functional recipes cover every '
-                     'Functional class with a proximal in the variants plain / translated or with data term / scaled / conjugate; '
+                     'Functional class with a proximal in the variants plain / translated or with data term / scaled / conjugate, plus all '
+                     'ordered pairs of 9 wrappers on a smooth and a kinked base and seeded depth-2..3 wrapper chains; every case also in '
+                     'the three call modes (out-of-place, separate out, out aliased to the input); '
                      'input classes {generic, zero, tiny, huge, positive, with exact zeros, at thresholds} are enumerated; ~60 '
                      'feasible probes per case; distinct = distinct case keys')
     from odl.solvers.nonsmooth import proximal_operators as pom
